@@ -216,3 +216,64 @@ pub fn source_cases(ctx: &Ctx, property: &str, kind: &str, label: &str, srcs: Ve
         Some((Case{property: property.to_string(), kind: kind.to_string(), srcs: vec![src.clone().into_bytes()], pred: Pred::Expect(e), note: note.clone()}, true))
     }).collect()
 }
+
+// Ways a callable value (a bound method `o.m`, a bound type function
+// `s->len`, a plain function) can travel before it is called with no
+// arguments. Each entry is (route name, statements that end by printing the
+// result of the call).
+pub fn callable_routes(b: &str) -> Vec<(&'static str, String)> {
+    vec![
+        ("called directly", format!("print({b}())\n")),
+        ("variable", format!("m := {b}\nprint(m())\nprint(m())\n")),
+        ("list element", format!("fs := [{b}]\nprint(fs[0]())\n")),
+        ("argument", format!("fn call_it(g) {{\n    return g()\n}}\nprint(call_it({b}))\n")),
+        ("returned", format!("fn give() {{\n    return {b}\n}}\nprint(give()())\nh := give()\nprint(h())\n")),
+        ("returned from a list", format!("fs := [{b}, {b}]\nfn pick(i) {{\n    return fs[i]\n}}\nprint(pick(1)())\n")),
+        ("returned by a closure", format!("g := fn () {{\n    return {b}\n}}\nprint(g()())\n")),
+        ("spread into a call", format!("fn first(a, ..r) {{\n    return a()\n}}\nfs := [{b}]\nprint(first(fs..))\nprint(first(fs.., fs..))\n")),
+        ("spread into a literal", format!("fs := [{b}]\ngs := [fs.., fs..]\nprint(gs[1]())\n")),
+        ("rest parameter", format!("fn rest(..r) {{\n    return r[0]()\n}}\nprint(rest({b}))\nfs := [{b}]\nprint(rest(fs..))\n")),
+        ("rest parameter after a plain one", format!("fn rest(a, ..r) {{\n    return r[0]()\n}}\nfs := [1, {b}]\nprint(rest(fs..))\nprint(rest(fs[0], fs[1:]..))\n")),
+        ("list pattern", format!("[d, ..more] := [{b}, {b}]\nprint(d())\nprint(more[0]())\n")),
+        ("for element", format!("for [_, e] in [{b}, {b}] {{\n    print(e())\n}}\n")),
+        ("slice and concatenation", format!("fs := ([1] + [{b}])[1:]\nprint(fs[0]())\n")),
+        ("range assignment", format!("fs := [0, 0]\nfs[0:2] = [{b}, {b}]\nprint(fs[1]())\n")),
+        ("captured", format!("kept := {b}\nfn later() {{\n    return kept()\n}}\nprint(later())\n")),
+        ("object property", format!("ob := {{\"size\": {b}}}\nprint(ob.size())\n")),
+        ("object index", format!("ob := {{\"size\": {b}}}\nprint(ob[\"size\"]())\n")),
+        ("object property taken out again", format!("ob := {{\"size\": {b}}}\nm := ob.size\nprint(m())\n")),
+    ]
+}
+
+// `slot op= v` on a property, index or element is `slot = slot op v`: the
+// slot gets a new value, whatever else held the old one keeps it. Set-ups
+// that make one container reachable twice x op-assignments through a slot x
+// full observation (contents, `==`, `!=`, `===`, `!==` against the other
+// route and against an independent equal copy). Oracle: the reference run.
+pub fn slot_op_assign_cases(ctx: &Ctx, property: &str) -> Vec<(Case, bool)> {
+    let setups = [
+        ("t := [1]\no := {\"a\": t, \"b\": t, \"\": t}\n", "o.a", "o.b", "t"),
+        ("o := {\"a\": [1], \"k\": 0}\no.b = o.a\nt := o[\"b\"]\n", "o.a", "o.b", "t"),
+        ("o := {\"a\": [1]}\no[\"b\"] = o[\"a\"]\nt := [o.a][0]\n", "o[\"a\"]", "o[\"b\"]", "t"),
+        ("src := {\"a\": [1], \"b\": [1]}\no := {src..}\nt := src.a\n", "o.a", "src.a", "t"),
+        ("row := [1]\no := [row, row, [1]]\nt := row\n", "o[0]", "o[1]", "t"),
+        ("row := [1]\no := {\"g\": [row, row]}\nt := o.g[1]\n", "o.g[0]", "o.g[1]", "t"),
+        ("t := [1]\nfn wrap(v) {\n    return {\"a\": v, \"b\": v}\n}\no := wrap(t)\n", "o.a", "o.b", "t"),
+        ("t := \"s\"\no := {\"a\": t, \"b\": t}\n", "o.a", "o.b", "t"),
+        ("t := 7\no := {\"a\": t, \"b\": t}\n", "o.a", "o.b", "t"),
+    ];
+    let mut srcs = vec![];
+    for (setup, slot, other, name) in setups {
+        let rhs: Vec<String> = if setup.contains("\"s\"") { vec!["\"x\"".into(), other.to_string()] } else if setup.contains(":= 7") { vec!["1".into(), other.to_string()] } else { vec!["[2]".into(), "[]".into(), other.to_string(), slot.to_string(), "[[3]]".into()] };
+        for r in rhs {
+            for times in [1, 2] {
+                let op = format!("{slot} += {r}\n").repeat(times);
+                let fresh = if setup.contains("\"s\"") { "\"s\"" } else if setup.contains(":= 7") { "7" } else { "[1]" };
+                let ids = if fresh == "[1]" { format!("print([{slot} === {other}, {slot} !== {name}, {other} === {name}])\n") } else { String::new() };
+                let src = format!("{setup}{op}print({slot})\nprint({other})\nprint({name})\nprint(o)\nprint([{other} == {fresh}, {other} != {fresh}, {name} == {fresh}, {slot} == {other}, {slot} != {name}])\n{ids}");
+                srcs.push((src, format!("`{slot} += {r}` x {times} after `{}`", setup.lines().next().unwrap_or(""))));
+            }
+        }
+    }
+    source_cases(ctx, property, "slot_op_assign", "op-assignment through a slot whose value is reachable by another route", srcs)
+}
